@@ -220,6 +220,56 @@ func checkC09(e *core.Env) {
 		}
 	})
 
+	// the same context used for one call after another (a batch of calls under one deadline), on one channel:
+	// each call's header is worked out from what remains when that call is made
+	e.Cases("client-later-calls", e.N(16, 160), func(i int, r *rand.Rand) {
+		var hdrs [][]string
+		rt := rtFunc(func(rq *http.Request) (*http.Response, error) {
+			hdrs = append(hdrs, rq.Header["Grpc-Timeout"])
+			return nil, fmt.Errorf("recorded")
+		})
+		ch := &httpgrpc.Channel{BaseURL: mustURL("http://c09.test/"), Transport: rt}
+		rem := pick(r, 2*time.Second, time.Minute, time.Hour, 40*time.Hour)
+		D := time.Now().Add(rem)
+		ctx := virtualDeadlineCtx{context.Background(), D}
+		var starts []time.Time
+		for k := 0; k < 3; k++ {
+			if k > 0 {
+				time.Sleep(time.Duration(20+r.Intn(20)) * time.Millisecond)
+			}
+			starts = append(starts, time.Now())
+			if (i+k)%2 == 0 {
+				ch.Invoke(ctx, Unary.Method(), &tpb.Message{}, new(tpb.Message))
+			} else {
+				cctx, cancel := context.WithCancel(ctx)
+				if st, err := ch.NewStream(cctx, ServerStream.StreamDesc(), ServerStream.Method()); err == nil {
+					st.Header()
+				}
+				cancel()
+			}
+		}
+		e.Eval(fmt.Sprintf("client-later-calls|%v", rem), true)
+		if len(hdrs) != 3 {
+			e.Inconclusive("C09 client-later-calls: %d round trips observed", len(hdrs))
+			return
+		}
+		for k, h := range hdrs {
+			if len(h) != 1 {
+				e.Violate("client/missing", fmt.Sprintf("call #%d under one deadline: GRPC-Timeout header = %q", k+1, h), nil)
+				return
+			}
+			d, ok := parseTimeoutExact(h[0])
+			if !ok {
+				e.Violate("client/malformed", fmt.Sprintf("GRPC-Timeout %q is not <digits><unit>", h[0]), nil)
+				return
+			}
+			if hi := D.Sub(starts[k]); d.Cmp(big.NewInt(int64(hi))) > 0 {
+				e.Violate("client/extended/later-call", fmt.Sprintf("call #%d made with the same context: %v remained when it started but GRPC-Timeout=%s (longer; the first call carried %s)", k+1, hi, h[0], hdrs[0][0]), nil)
+				return
+			}
+		}
+	})
+
 	// ---- server parse ----
 	badMD := false
 	// parentIn > 0: the request context already carries a deadline of the server's own (http.TimeoutHandler,
